@@ -5,7 +5,7 @@
              Copyright/DocSpec.v (domains and expected values; never against the model). *)
 From Coq Require Import String.
 From Verif Require Import Lib.Base Lib.Dec Lib.PyStr Gen.PyChars
-  Copyright.Fields Copyright.Doc Copyright.DocSpec.
+  Copyright.Fields Copyright.Doc Copyright.DocSpec Copyright.DocBridge.
 
 (** * Case syntax (strings are the escaped literals of Lib/Dec.v) *)
 Definition spair := (string * string)%type.
@@ -32,12 +32,14 @@ Inductive oval :=
 | OLic (synopsis text : string)
 | OErr (e : err).
 
-Record oview := mkOV { ov_files : bool; ov_raw : list spair; ov_vals : list oval }.
+Record oview := mkOV { ov_files : bool; ov_vals : list oval }.
 
+(** [ODone dump1 v1 None]: the re-read document showed exactly the same values and the
+    second dump was identical (the harness compares them and does not repeat the text) *)
 Inductive docobs :=
 | OBuildErr (e : err)
 | OParseErr (dump1 : string) (v1 : list oview) (e : err)
-| ODone (dump1 : string) (v1 v2 : list oview) (dump2 : string).
+| ODone (dump1 : string) (v1 : list oview) (again : option (list oview * string)).
 
 Inductive case :=
   (* format_multiline_lines(ls) = enc ; parse_multiline_as_lines(enc) = back *)
@@ -68,21 +70,6 @@ Definition dpair (p : spair) : str * str := (dec (fst p), dec (snd p)).
 Definition dres {A B} (f : A -> B) (r : result A) : result B :=
   match r with Ok a => Ok (f a) | Err e => Err e end.
 
-Definition bval_of (v : ival) : bval :=
-  match v with
-  | INone => BNone
-  | IStr s => BStr (dec s)
-  | IList l => BList (dstrs l)
-  | ILic s t => BLic (dec s) (dopt t)
-  end.
-Definition hop_of (o : ihop) : hop :=
-  match o with IHSet i v => HSet i (bval_of v) | IHItem k v => HItem (dec k) (dec v) end.
-Definition pspec_of (p : ipspec) : pspec :=
-  match p with
-  | IFiles f c l cm => SFiles (bval_of f) (bval_of c) (bval_of l) (bval_of cm)
-  | ILicense l cm => SLicense (bval_of l) (bval_of cm)
-  end.
-
 Definition sval_of (v : ival) : sval :=
   match v with
   | INone => SNone
@@ -98,6 +85,10 @@ Definition spara_of (p : ipspec) : spara :=
   | ILicense l cm => PLicense (sval_of l) (sval_of cm)
   end.
 
+(** the model is run on the same values, through Copyright/DocBridge.v *)
+Definition hop_of (o : ihop) : hop := hop_of_shop (shop_of o).
+Definition pspec_of (p : ipspec) : pspec := pspec_of_spara (spara_of p).
+
 Definition fval_of (o : oval) : result fval :=
   match o with
   | ONone => Ok VNone
@@ -107,11 +98,11 @@ Definition fval_of (o : oval) : result fval :=
   | OErr e => Err e
   end.
 Definition pview_of (o : oview) : pview :=
-  mkView (ov_files o) (map dpair (ov_raw o)) (map fval_of (ov_vals o)).
+  mkView (ov_files o) (map fval_of (ov_vals o)).
 
 (** * Equalities *)
 Definition pview_eqb (a b : pview) : bool :=
-  Bool.eqb (pv_files a) (pv_files b) && para_eqb (pv_raw a) (pv_raw b)
+  Bool.eqb (pv_files a) (pv_files b)
   && list_eqb (result_eqb fval_eqb) (pv_vals a) (pv_vals b).
 Definition views_eqb : list pview -> list pview -> bool := list_eqb pview_eqb.
 
@@ -134,9 +125,12 @@ Definition docrun_agrees (m : docrun) (o : docobs) : bool :=
   | RBuildErr e, OBuildErr f => err_eqb e f
   | RParseErr d1 v1 e, OParseErr od1 ov1 f =>
       str_eqb d1 (dec od1) && views_eqb v1 (map pview_of ov1) && err_eqb e f
-  | RDone d1 v1 v2 d2, ODone od1 ov1 ov2 od2 =>
+  | RDone d1 v1 v2 d2, ODone od1 ov1 again =>
       str_eqb d1 (dec od1) && views_eqb v1 (map pview_of ov1)
-      && views_eqb v2 (map pview_of ov2) && str_eqb d2 (dec od2)
+      && match again with
+         | None => views_eqb v2 v1 && str_eqb d2 d1
+         | Some (ov2, od2) => views_eqb v2 (map pview_of ov2) && str_eqb d2 (dec od2)
+         end
   | _, _ => false
   end.
 
@@ -238,11 +232,9 @@ Definition holds (c : case) : bool :=
       let sps := map spara_of specs in
       if wf_copyright (map shop_of hops) sps then
         match obs with
-        | ODone d1 v1 v2 d2 =>
-            views_eqb (map pview_of v2) (map pview_of v1)           (* same paragraphs, same values *)
-            && str_eqb (dec d2) (dec d1)                            (* identical second dump *)
-            && list_eqb2 oview_is (tl v2) (map expected_vals (expected_order sps))
-                                                                    (* ... and they are what was put in *)
+        | ODone d1 v1 None =>                  (* same paragraphs, same values, identical second dump *)
+            list_eqb2 oview_is (tl v1) (map expected_vals (expected_order sps))
+                                                (* ... and they are what was put in *)
         | _ => false
         end
       else true
@@ -251,3 +243,17 @@ Definition holds (c : case) : bool :=
 
 Definition bad_agree (cs : list case) : list N := bad agree cs.
 Definition bad_holds (cs : list case) : list N := bad holds cs.
+
+(** Is the case inside the domain on which [holds] judges anything?  (statistics only) *)
+Definition in_domain (c : case) : bool :=
+  match c with
+  | KLines ls _ _ => ml_dom (dstrs ls)
+  | KText s _ _ => match s with None => true | Some t => text_dom (dec t) end
+  | KLic syn text _ => lic_dom (dec syn) (otext (dopt text))
+  | KSS l _ _ => ss_dom (dstrs l)
+  | KLB l _ _ => lb_dom (dstrs l)
+  | KSSFrom _ _ _ _ | KLBFrom _ _ _ _ => true
+  | KDoc hops specs _ _ _ => wf_copyright (map shop_of hops) (map spara_of specs)
+  | KParse _ _ | KLicFrom _ _ | KParseDoc _ _ _ _ => false
+  end.
+Definition count_in_domain (cs : list case) : N := N.of_nat (List.length (filter in_domain cs)).
